@@ -822,6 +822,10 @@ class FunctionEmitterVisitor(OpVisitor[None]):
         dest = self.reg(op)
         lhs = self.reg(op.lhs)
         rhs = self.reg(op.rhs)
+        if op.op in (IntOp.LEFT_SHIFT, IntOp.RIGHT_SHIFT) and isinstance(op.lhs, Integer):
+            # In C the type of a shift is the (promoted) type of the left operand alone, so
+            # a bare literal such as '1 << x' would be shifted as a 32-bit int.
+            lhs = f"({self.ctype(op.type)}){lhs}"
         if op.op == IntOp.RIGHT_SHIFT:
             # Signed right shift
             lhs = self.emit_signed_int_cast(op.lhs.type) + lhs
